@@ -325,6 +325,36 @@ theorem I2V_arity_variadic (objs : List Boxed) (types : List Ty) (h : objs.lengt
     I2V K objs types true = .error .errArity := by
   simp [I2V, h]
 
+/-- I2V returns one converted value per supplied value -/
+theorem I2V_keeps_count (objs : List Boxed) (types : List Ty) (b : Bool) (vs : List RV)
+    (h : I2V K objs types b = .ok vs) : vs.length = objs.length := by
+  simp only [I2V] at h
+  split at h
+  · simp at h
+  · exact go_length K types b objs 0 vs h
+
+/-- several results: the j-th stored value is `toValue` of the j-th supplied value at the j-th declared type —
+    so every single-result theorem above applies to each position of a multi-result `Return(...)` -/
+theorem I2V_nonvariadic_pointwise (objs : List Boxed) (types : List Ty) (vs : List RV)
+    (h : I2V K objs types false = .ok vs) :
+    objs.length = types.length ∧
+    ∀ j, j < objs.length → ∃ t a v, types[j]? = some t ∧ objs[j]? = some a ∧ vs[j]? = some v ∧ toValue K a t = .ok v := by
+  by_cases hl : objs.length = types.length
+  · refine ⟨hl, ?_⟩
+    simp only [I2V] at h
+    split at h
+    · simp at h
+    · intro j hj
+      have := go_pointwise K types objs 0 vs (by omega) h j hj
+      simpa using this
+  · rw [I2V_arity_nonvariadic objs types hl] at h; simp at h
+
+example : ∃ vs, I2V K [some (tInt64, .int 5), none] [tInt64, tError] false = .ok vs ∧ vs.length = 2 :=
+  ⟨[⟨tInt64, .int, true, .int 5⟩, ⟨tError, .iface, true, .ifaceNil⟩], by
+    have hm : Kind.iface ∈ K.nil := by decide
+    simp [I2V, I2V.go, toValue, hm, zeroRV, tError, tInt64, Ty.kind, Prim.kind, Ty.isDirect,
+      zeroVal, isIContextPtr, Ty.size, Prim.size]⟩
+
 /-- fewer values than results never configure a stub -/
 theorem too_few_results_rejected (values : List Boxed) (outs : List Ty) (h : values.length < outs.length) :
     returnE2E K values outs = .cfgReturnsMismatch := by
